@@ -168,3 +168,34 @@ Theorem C08_source_positions_public : forall mutable bit b pos fuelw n,
    g_pi_collect bit fuelw d nb cp cwp cw n) = Val (positions_from bit (bv_abs b) 0).
 Proof. exact g_bv_positions_public. Qed.
 Print Assumptions C08_source_positions_public.
+
+(* ---- the collecting constructors regenerated (T5, Gen/FnsBvnew.v: Extend<bool> / Extend<usize> for BitVectorMut, FromIterator
+   for BitVectorMut and BitVector): definitionally the loops the history theorems above run for the extend operations, so
+   those theorems speak of regenerated code only; and end to end: the regenerated constructor from a bit list / a position list
+   returns the fields of a vector whose abstraction is the input. *)
+From QwtModel Require Import FnsBvnew FnsBvnewOk.
+Theorem C08_source_extend_bools : forall bs d nb no,
+  g_bvm_extend_bools d nb no bs = g_extend_bools d nb no bs.
+Proof. exact g_bvm_extend_bools_ok. Qed.
+Print Assumptions C08_source_extend_bools.
+Theorem C08_source_extend_positions : forall ps d nb no,
+  g_bvm_extend_positions d nb no ps = g_extend_positions d nb no ps.
+Proof. exact g_bvm_extend_positions_ok. Qed.
+Print Assumptions C08_source_extend_positions.
+Theorem C08_source_from_bools : forall bs, len bs < 2 ^ 63 ->
+  exists b, g_bv_from_bools bs = Val (chunks 8 (bv_words b), bv_nbits b, bv_nones b) /\ bv_inv b /\ bv_abs b = bs.
+Proof. exact g_bv_from_bools_correct. Qed.
+Print Assumptions C08_source_from_bools.
+Theorem C08_source_mut_from_bools : forall bs, len bs < 2 ^ 63 ->
+  exists b, g_bvm_from_bools bs = Val (chunks 8 (bv_words b), bv_nbits b, bv_nones b) /\ bv_inv b /\ bv_abs b = bs.
+Proof. exact g_bvm_from_bools_correct. Qed.
+Print Assumptions C08_source_mut_from_bools.
+Theorem C08_source_from_positions : forall ps, Forall (fun p => p < 2 ^ 63 - 1) ps ->
+  exists b, g_bvm_from_positions ps = Val (chunks 8 (bv_words b), bv_nbits b, bv_nones b) /\ bv_inv b /\
+            bv_abs b = op_spec [] (OExtPos ps).
+Proof. exact g_bvm_from_positions_correct. Qed.
+Print Assumptions C08_source_from_positions.
+Theorem C08_source_from_bools_observed : forall bs, len bs < 2 ^ 63 ->
+  exists s, g_bv_from_bools bs = Val s /\ gobs s bs /\ gobs_bv s bs.
+Proof. exact g_bv_from_bools_observed. Qed.
+Print Assumptions C08_source_from_bools_observed.
